@@ -13,9 +13,11 @@ CLAIMS = {
          "delivers a DATA packet iff its Seq equals recvSeq and it is not a ping, then advances recvSeq by one modulo s and ACKs exactly that Seq, "
          "otherwise NACKs recvSeq (two-state loop step clauses); processACK/processNACK move the base only forward inside the window for every "
          "sequence value 0..255; addPacket appends at top with Seq = top; resend retransmits exactly the window's packets in order; Send/Recv chunking "
-         "and the codecs are exact. Thorough adds the inductive protocol lemma (lemmas/gbn_delivery.smt2.tmpl) for every s in 2..255.",
-         "The protocol lemma assumes atomicity of each queue operation, FIFO transport per direction and a single Send caller; goroutine/timer "
-         "interleavings are not explored (only through that assumption). One explicit ownership assumption: a packet received from sendDataChan is not already queued."),
+         "and the codecs are exact; a successful Send hands the send loop at least one packet, the last one final.",
+         "These are the per-step clauses of the protocol; the induction from them to 'every message arrives exactly once, in order' over whole executions "
+         "(needs atomicity of each queue operation, FIFO transport per direction, a single Send caller) is a paper argument in DESIGN.md, not a machine-checked "
+         "lemma; goroutine/timer interleavings are not explored. One explicit ownership assumption: a packet received from sendDataChan is not already queued. "
+         "The thorough tier discharges the same obligations with a 5x solver budget."),
  "C02": ("Per-record clauses proved for every record, key state and input byte string: a Read/ReadMessage returns plaintext only after exactly two AEAD opens "
          "(length header, body) that both authenticated under the receiver's current (key, nonce) pair; every open, successful or not, advances the receive "
          "state by the same spec function csnext that advances the sender's state per seal (lock step); on any failed open the caller gets an error and no "
